@@ -291,6 +291,7 @@ func c26(c *core.Ctx) {
 		loop ast.Node
 	}
 	var stack []ast.Node
+	curCase := "-"
 	var visit func(n ast.Node, following []ast.Stmt)
 	assignsAction := func(st ast.Stmt) (*ast.AssignStmt, bool) {
 		as, ok := st.(*ast.AssignStmt)
@@ -314,7 +315,12 @@ func c26(c *core.Ctx) {
 			rest := list[i+1:]
 			if as, ok := assignsAction(st); ok {
 				val := types.ExprString(as.Rhs[0])
-				key := "(*opcua.Client).monitor·action = " + val
+				key := "(*opcua.Client).monitor·case " + curCase + "·action = " + val
+				if lp := innermost(); lp != nil && lp != ast.Node(stateLoop) {
+					if rs, ok := lp.(*ast.RangeStmt); ok {
+						key += " (in range " + types.ExprString(rs.X) + ")"
+					}
+				}
 				lp := innermost()
 				p := c.P.Pos(as.Pos())
 				switch {
@@ -378,7 +384,15 @@ func c26(c *core.Ctx) {
 			}
 		case *ast.SwitchStmt:
 			for _, cc := range x.Body.List {
-				walkBlock(cc.(*ast.CaseClause).Body, following)
+				clause := cc.(*ast.CaseClause)
+				saved := curCase
+				if x.Tag != nil {
+					if id, ok := x.Tag.(*ast.Ident); ok && info.Uses[id] == action && len(clause.List) > 0 {
+						curCase = types.ExprString(clause.List[0])
+					}
+				}
+				walkBlock(clause.Body, following)
+				curCase = saved
 			}
 		case *ast.TypeSwitchStmt:
 			for _, cc := range x.Body.List {
